@@ -20,7 +20,7 @@ OVERLAYS = [
     {'name': 'strand not compared', 'kind': 'break', 'rules': ['C06-R3'],
      'edits': [(FRAGMENT, "        if self.strand != other.strand:\n            return False\n\n        if not self.has_valid_span()", "        if not self.has_valid_span()")]},
     {'name': 'radius test uses max of start/end distance', 'kind': 'break', 'rules': ['C06-R3'],
-     'edits': [(FRAGMENT, "        if min(abs(self.span[1] -", "        if max(abs(self.span[1] -")]},
+     'edits': [(FRAGMENT, "        if self.span[0] != other.span[0]:\n            return False\n\n        if min(abs(self.span[1] -", "        if self.span[0] != other.span[0]:\n            return False\n\n        if max(abs(self.span[1] -")]},
     {'name': 'UMI distance strictly below the limit', 'kind': 'break', 'rules': ['C06-R3'],
      'edits': [(FRAGMENT, "                self.umi, other.umi) <= self.umi_hamming_distance", "                self.umi, other.umi) < self.umi_hamming_distance")]},
     {'name': 'NlaIII match hash without the sample', 'kind': 'break', 'rules': ['C06-R3'],
